@@ -287,6 +287,17 @@ def run_case(spec):
             got = read_all(buf.getvalue())
         except Exception:
             out.nontrivial = True
+            # the other way a trace file is loaded (`run -w`): reader -> trace workload, ticked past the last arrival
+            from eudoxia.workload.csv_io import CSVWorkloadReader
+            try:
+                wl = CSVWorkloadReader(io.StringIO(buf.getvalue())).get_workload(tps)
+                n_loaded = 0
+                for t in range(nticks + 3):
+                    n_loaded += len(wl.run_one_tick())
+            except Exception:
+                return out
+            P("C14:malformed-file-loaded", f"rule {rule} broken at data row {target} ({rows[target]}): the reader refuses the file, but as a trace workload it "
+              f"loads and delivers {n_loaded} pipelines in {nticks + 3} ticks without any error")
             return out
         P("C14:malformed-file-loaded", f"rule {rule} broken at data row {target} ({rows[target]}) but the file loaded {len(got)} pipelines")
         out.nontrivial = True
